@@ -473,6 +473,22 @@ def L5(tier):
                 yield Scenario(sched, bal, A, mk_tasks(par, attrs), list(links), layer='L5'), 'leaf-cycle'
 
 
+def L5b(tier):
+    """C14 only: calendars whose validity bound falls in the middle of the anchor day, anchors before and after that instant.
+    The capacity of such a day depends on the time of day at which it is asked; the properties about amounts and dates
+    leave that undefined, but calc must still end with a schedule or a RuntimeError."""
+    from .scenario import MON as M
+    for sched in ('fwd', 'bwd'):
+        for hour in (0, 9, 15, 23):
+            A = (M if sched == 'fwd' else M + 21 * DAY) + timedelta(hours=hour, minutes=30 if hour else 0)
+            for cal in ('from_noon', 'until_noon', 'fixed_from_noon', 'fixed_until_noon'):
+                for k, links in ((1, ()), (2, ()), (2, ((0, 1),))):
+                    for est in (4, 12):
+                        attrs = {i: {'estimate': est, 'resource': 'A'} for i in range(k)}
+                        for bal in (True, False):
+                            yield Scenario(sched, bal, A, mk_tasks((None,) * k, attrs), list(links), cals={'A': cal}, layer='L5b')
+
+
 def L6(tier, include_cycles=False):
     """External-link layer: a second WBS Y with a dated task E linked with tasks of X."""
     S = MON
@@ -493,14 +509,19 @@ def L6(tier, include_cycles=False):
                     for b in choices:
                         if a != b:
                             combos.append([(a, ('e', 0)), (('e', 0), b)])  # a -> E -> b
-                for el in combos:
+                internal = [()] + [(l,) for l in link_candidates(par)] if n <= 3 else [()]
+                for el, il in [(e, i) for e in combos for i in internal]:
+                    if il and (len(el) != 1 or eid != 50):
+                        continue  # internal link variants only with a single external link and a distinct external id
                     par2 = tuple(par) + (None,)
-                    links2 = [((a[1] if a[0] == 'x' else n), (b[1] if b[0] == 'x' else n)) for a, b in el]
+                    links2 = [((a[1] if a[0] == 'x' else n), (b[1] if b[0] == 'x' else n)) for a, b in el] + list(il)
+                    if direct_cycle(n + 1, links2):
+                        continue
                     cyc = leaf_cycle(par2, links2)
                     if cyc and not include_cycles:
                         continue
                     for bal in (True, False):
                         for clock in ([S - 30 * DAY, S + 5 * DAY] if sched == 'fwd' else [S - 30 * DAY]):
-                            sc = Scenario(sched, bal, A, mk_tasks(par, attrs), [], ext=[(eid, dict(ed))],
+                            sc = Scenario(sched, bal, A, mk_tasks(par, attrs), list(il), ext=[(eid, dict(ed))],
                                           ext_links=el, clock=clock, layer='L6c' if cyc else 'L6')
                             yield sc
